@@ -104,6 +104,28 @@ def run(ck):
         meta.append((inp, "ok " + hx(chunked)))
         if len(ck.samples) < 3:
             ck.sample({k: v for k, v in inp.items() if k != "raw"})
+    # ---- chunk sizes on both sides of internal buffer sizes (8 KiB, 64 KiB, 1 MiB): a small chunk followed by a large one,
+    # large followed by small, many small ones
+    for ci in range(6 if q else 60):
+        minor, fmt = ck.rng.choice(fio.PAIRS)
+        n = ck.rng.choice([600, 900, 2500]) if ci % 3 else 40000
+        las = fio.make_las(ck.rng, minor, fmt, n, evlrs=fio.rand_vlrs(ck.rng, True, 1) if minor >= 4 else None)
+        one = io.BytesIO()
+        las.write(one)
+        a = ck.rng.choice([1, 10, 100, 200])
+        b = ck.rng.choice([1, 7, 150])
+        for parts in ((a, n - a), (n - b, b), (a, a, n - 2 * a), tuple([n // 7] * 6 + [n - 6 * (n // 7)])):
+            inp = {"kind": "big_chunks", "minor": minor, "fmt": fmt, "n": n, "parts": list(parts), "record_size": las.header.point_format.size}
+            ck.case(("bigchunks", minor, fmt, n, parts), nontrivial=True)
+            ck.count("big_chunks")
+            try:
+                chunked = chunked_write(las, parts)
+            except Exception as e:
+                ck.fail(f"chunked write {parts} raised {type(e).__name__}: {e}", inp)
+                continue
+            if chunked != one.getvalue():
+                k0 = next((i for i in range(min(len(chunked), len(one.getvalue()))) if chunked[i] != one.getvalue()[i]), -1)
+                ck.fail(f"chunked file {parts} differs from the one-shot file (first difference at byte {k0}; sizes {len(chunked)}/{len(one.getvalue())})", inp)
     # ---- late writes and wrong formats
     for _ in range(60 if q else 800):
         minor, fmt = ck.rng.choice(fio.PAIRS)
